@@ -138,7 +138,7 @@ Definition sites_statement : Prop :=
   (* #[ghost({expr})]: no `~` path *)
   (forall g act obj fpath c o, fg_action g = Some act -> get_stuff (AGhost g) obj fpath c o = Ok (quote_action act None c)) /\
   (* #[ghosts(name: {expr})] on the Into side *)
-  (forall g i c, gd_ident g = GMember (MNamed i) -> is_intoish (c_kind c) = true ->
+  (forall g i c, gd_ident g = GMember (MNamed i) -> is_intoish (c_kind c) = true -> c_post_init c = false ->
      render_ghost_line g c = Ok ([TIdent i; P1 ":"] ++ quote_action (gd_action g) None c ++ [comma])) /\
   (* nested [instr(expr)] inside #[parent(..)] *)
   (forall p k at_ act fp c o, get_for_kind p k = Some at_ -> pf_action at_ = Some act ->
@@ -152,6 +152,6 @@ Proof.
   - intros mc m act obj fpath c o Hm Ha Hv. cbn [get_stuff]. rewrite Hm, Ha. destruct m; [reflexivity|]. rewrite Hv. reflexivity.
   - intros mc act obj fpath c o Hm Ha. cbn [get_stuff]. rewrite Hm, Ha. reflexivity.
   - intros g act obj fpath c o H. cbn [get_stuff]. rewrite H. reflexivity.
-  - intros g i c Hi Hk. unfold render_ghost_line. rewrite Hi, Hk. reflexivity.
+  - intros g i c Hi Hk Hp. unfold render_ghost_line. rewrite Hi, Hk, Hp. reflexivity.
   - intros p k at_ act fp c o Hg Ha. cbn [get_action_or]. rewrite Hg, Ha. reflexivity.
 Qed.
